@@ -292,15 +292,22 @@ def locate(src, path, items=None):
     """Find exactly one item for `path`; raise AnchorError otherwise."""
     items = items if items is not None else scan(src)
     path = path.strip()
+    ordinal = None
+    om = re.fullmatch(r"(.*)#(\d+)", path)
+    if om:   # "<path>#k": the k-th match in source order (1-based), for items that legitimately occur several times
+        path, ordinal = om.group(1).strip(), int(om.group(2))
     m = re.fullmatch(r"<\s*([A-Za-z_][A-Za-z0-9_]*)\s+as\s+([A-Za-z_][A-Za-z0-9_]*)\s*>::([A-Za-z_][A-Za-z0-9_]*)", path)
     cands = []
     if m:
         ty, trait, name = m.groups()
         want = "impl %s for %s" % (trait, ty)
         cands = [it for it in items if it.kind == "fn" and it.name == name and it.path and it.path[-1] == want]
-    elif path.startswith(("struct ", "enum ")):
+    elif path.startswith(("struct ", "enum ", "trait ")):
         kind, name = path.split()
         cands = [it for it in items if it.kind == kind and it.name == name]
+    elif path.startswith("impl "):
+        # whole impl block: "impl Type" or "impl Trait for Type"
+        cands = [it for it in items if it.kind == "impl" and it.name == path[5:].strip()]
     elif "::" in path:
         scope, name = path.rsplit("::", 1)
         for it in items:
@@ -312,6 +319,10 @@ def locate(src, path, items=None):
     else:
         cands = [it for it in items if it.kind == "fn" and it.name == path
                  and all(p.startswith("mod ") for p in it.path)]
+    if ordinal is not None:
+        if not (1 <= ordinal <= len(cands)):
+            raise AnchorError("item %r#%d: only %d matches" % (path, ordinal, len(cands)))
+        cands = [sorted(cands, key=lambda c: c.start)[ordinal - 1]]
     if len(cands) != 1:
         raise AnchorError("item %r found %d times" % (path, len(cands)))
     it = cands[0]
